@@ -125,7 +125,22 @@ def coherence(o):
             'top-joints': np.abs(ts - (Tt[:3, :3] @ tj + Tt[:3, 3:4])).max(),
             'lengths': np.abs(L - np.linalg.norm(ts - bs, axis=0)).max(),
             'relative-transform': np.abs(rel - np.linalg.inv(Tb) @ Tt).max()}
-    return {k: float(v) for k, v in errs.items() if not v < 1e-9}
+    out = {k: float(v) for k, v in errs.items() if not v < 1e-9}
+    if 'relative-transform' in out:
+        # plates rotated against each other by an angle strictly inside (0, 1e-6): the frame helper that derives the published relative transform
+        # snaps such a rotation to the identity (the library's NearZero cut-off), leaving a discrepancy of at most that angle (times the lever arm)
+        Rr = (np.linalg.inv(Tb) @ Tt)[:3, :3]
+        ang_ = math.acos(max(-1.0, min(1.0, (np.trace(Rr) - 1) / 2)))
+        ang_ = max(ang_, float(np.linalg.norm([Rr[2, 1] - Rr[1, 2], Rr[0, 2] - Rr[2, 0], Rr[1, 0] - Rr[0, 1]]) / 2))     # acos loses tiny angles
+        if 0 < ang_ < 1e-6 and out['relative-transform'] <= 4 * ang_ * max(1.0, float(np.abs(Tt[:3, 3] - Tb[:3, 3]).max())):
+            out['relative-transform:band'] = out.pop('relative-transform')
+        else:
+            # a plate pose whose own rotation angle is close to a half turn: the six-vector of that pose comes from the matrix logarithm, which loses
+            # accuracy like eps / (pi - angle)^2 there (the known finding of C01), and the relative transform is computed from six-vectors
+            near = min(math.pi - math.acos(max(-1.0, min(1.0, (np.trace(T_[:3, :3]) - 1) / 2))) for T_ in (Tb, Tt))
+            if near < 1e-2 and out['relative-transform'] <= max(1e-7, 1e-14 / max(near, 1e-9) ** 2) * max(1.0, float(np.abs(Tt[:3, 3]).max())):
+                out['relative-transform:pose-near-half-turn'] = out.pop('relative-transform')
+    return out
 
 
 def constraints(sp, o):
@@ -293,6 +308,7 @@ def history(rnd, tm, Wrench, rec, nmax):
         o = observe(sp)
         recs.append({'label': label, 'verdict': verdict, 'obs': o, 'solver_calls': len(items), 'kinds': [(k, f) for k, _, f in items], 'unmodelled': False, 'paths': ('raised' if rec.raised else '') + ('upside' if rec.upside else ''), 'knife': rec.knife})
         ce = coherence(o)
+        recs[-1]['band'] = 'relative-transform:band' in ce or 'relative-transform:pose-near-half-turn' in ce
         for k, v in ce.items():
             finds.append(('incoherent:%s' % k, 'published state is not coherent after %s' % label, {'step': step}, v))
         if verdict is not None and bool(verdict) and verdict_checked:
@@ -366,6 +382,8 @@ def run(res, tier, seed, driver_ok):
             for i, (r, m) in enumerate(zip(recs, obs)):
                 if r.get('paths'):
                     nunmod += 1
+                if r.get('band'):
+                    nknife += 1; break     # the real relative transform carries the cut-off snap (known finding): the exact model state is not comparable from here
                 knife = any(x.get('knife') for x in recs[:i + 1])     # a last-bit decision at a leg-length limit happened in this history
                 if not m['ok']:
                     if knife:
